@@ -571,9 +571,9 @@ where
                 );
             }
 
-            let permitted = {
+            let (permitted, half_open_permit) = {
                 let mut circuit = circuit.lock().await;
-                circuit.try_acquire(&config)
+                circuit.acquire(&config)
             };
 
             #[cfg(feature = "tracing")]
@@ -603,6 +603,8 @@ where
             let duration = start.elapsed();
 
             let mut circuit = circuit.lock().await;
+            // A half-open trial stops being "in flight" as it becomes "recorded"
+            drop(half_open_permit);
             if config.failure_classifier.classify(&result) {
                 circuit.record_failure(&config, duration);
             } else {
@@ -738,9 +740,9 @@ where
                 );
             }
 
-            let permitted = {
+            let (permitted, half_open_permit) = {
                 let mut circuit = circuit.lock().await;
-                circuit.try_acquire(&config)
+                circuit.acquire(&config)
             };
 
             #[cfg(feature = "tracing")]
@@ -776,6 +778,8 @@ where
             let duration = start.elapsed();
 
             let mut circuit = circuit.lock().await;
+            // A half-open trial stops being "in flight" as it becomes "recorded"
+            drop(half_open_permit);
             if config.failure_classifier.classify(&result) {
                 circuit.record_failure(&config, duration);
             } else {
